@@ -40,10 +40,21 @@ def explain_stalls(sl):
 def run(ctx):
     mon = runs.monitor_batch(ctx, PID, ctx.size(250, 3000), force=FORCE)
     explain_stalls(mon)
+    deep = runs.monitor_batch(ctx, PID, ctx.size(40, 500), salt=59, name="traced-runs-monitor-C18(four levels: two intermediate levels that can sleep)", force=_four_levels)
+    explain_stalls(deep)
     return [
         refine.refine_batch(ctx, ctx.size(120, 1500), force=FORCE, pid=PID, name="trace-refinement(Tree.step vs DemeTree.run)"),
         mon,
+        # the flag update walks the demes of all non-leaf levels: with four levels a round can create a
+        # non-leaf deme on one level while a deeper non-leaf deme needs its flag changed
+        refine.refine_batch(ctx, ctx.size(40, 500), salt=57, force=_four_levels, pid=PID, name="trace-refinement(four levels, hibernation)"),
+        deep,
     ]
+
+
+def _four_levels(rng):
+    eng = {0: ["sea", "de", "shade", "ga"], 1: ["sea", "de", "shade", "cma"], 2: ["sea", "de", "cma", "shade"], 3: ["sea", "de", "cma", "local"]}
+    return {"nlev": 4, "hibernation": True, "engines": eng, "max_steps": 12}
 
 
 def search(ctx, broken):
